@@ -1987,18 +1987,28 @@ func part7(c *Ctx, im *Impl, cf *CaseFile, tmp string) {
 	run(0, "complete")
 	run(1, "cancel")
 	run(2, "unreachable") // kills rb: last
-	// rb is down: a submit stays pending locally; cancel and release are local
+	// rb is down: a submit stays pending locally; cancel and release are local.  Then rb comes back:
+	// nothing of a cancelled or released unit may be created or run there, and the cancelled
+	// unit's record must not change any more.
+	type nev struct {
+		unit, sub, marker string
+		nlines          int
+		ctx             map[string]interface{}
+	}
+	var nevs []nev
 	for k, sub := range []string{"cancel", "release"} {
-		unit, reply, err := Submit(ra.Sock, map[string]interface{}{"node": "rb", "worktype": "sh", "params": shQuote("echo never")}, []byte("x"), tmo)
-		ctx := map[string]interface{}{"scenario": "remote unit whose node is down: " + sub, "unit": unit, "submit_reply": reply}
+		marker := fmt.Sprintf("c13nev-%d-%d", os.Getpid(), k)
+		script := fmt.Sprintf("echo never; exec -a %s sleep 20", marker)
+		unit, reply, err := Submit(ra.Sock, map[string]interface{}{"node": "rb", "worktype": "sh", "params": shQuote(script)}, []byte("x"), tmo)
+		ctx := map[string]interface{}{"scenario": "remote unit whose node is down: " + sub + "; then the node comes back", "unit": unit, "submit_reply": reply}
 		if err != nil {
 			im.Violate("submit to an unreachable node failed instead of staying pending: "+err.Error(), "c13-submit-failed", ctx)
 			continue
 		}
-		time.Sleep(300 * time.Millisecond)
+		time.Sleep(200 * time.Millisecond)
 		l, rerr := OneShot(ra.Sock, map[string]interface{}{"command": "work", "subcommand": sub, "unitid": unit}, 30*time.Second)
 		ctx["reply"] = l
-		time.Sleep(200 * time.Millisecond)
+		time.Sleep(150 * time.Millisecond)
 		lines := unitLog(ra, unit)
 		judgeLog(im, unit, lines, false, true, ctx)
 		cf.Add("CLogA "+coqLogA(lines), fmt.Sprintf("remote unit %s never started (%s) | %s", unit, sub, strings.Join(fmtLog(lines), " ; ")))
@@ -2007,15 +2017,82 @@ func part7(c *Ctx, im *Impl, cf *CaseFile, tmp string) {
 			if rerr != nil || !strings.Contains(l, "cancelled") || stage(st) != 2 {
 				im.Violate(fmt.Sprintf("remote unit %s that never started: cancel answered %q %v, stored state %d", unit, l, rerr, st), "c13-cancel-reply", ctx)
 			}
-			l, rerr = OneShot(ra.Sock, map[string]interface{}{"command": "work", "subcommand": "release", "unitid": unit}, 30*time.Second)
+		} else {
+			_, serr := os.Stat(ra.UnitDir(unit))
+			s2, _ := OneShot(ra.Sock, map[string]interface{}{"command": "work", "subcommand": "status", "unitid": unit}, tmo)
+			if rerr != nil || !strings.Contains(l, "released") || serr == nil || !unknown(s2) {
+				im.Violate(fmt.Sprintf("remote unit %s that never started: release answered %q %v; directory exists: %v; status: %q", unit, l, rerr, serr == nil, s2), "c13-known-after-release", ctx)
+			}
 		}
-		_, serr := os.Stat(ra.UnitDir(unit))
-		s2, _ := OneShot(ra.Sock, map[string]interface{}{"command": "work", "subcommand": "status", "unitid": unit}, tmo)
-		if rerr != nil || !strings.Contains(l, "released") || serr == nil || !unknown(s2) {
-			im.Violate(fmt.Sprintf("remote unit %s that never started: release answered %q %v; directory exists: %v; status: %q", unit, l, rerr, serr == nil, s2), "c13-known-after-release", ctx)
-		}
+		nevs = append(nevs, nev{unit, sub, marker, len(lines), ctx})
 		im.Count(fmt.Sprintf("remote never started %s %d", sub, k), len(lines) >= 3)
 		im.Hist("remote:never-started-" + sub)
+	}
+	defer func() {
+		for _, nv := range nevs {
+			for _, p := range procsWithMarker(nv.marker) {
+				_ = syscall.Kill(p, syscall.SIGKILL)
+			}
+		}
+	}()
+	// the remote node comes back
+	startNode(rb)
+	rbUnits := func() map[string]bool {
+		m := map[string]bool{}
+		ents, _ := os.ReadDir(filepath.Join(rb.DataDir, "rb"))
+		for _, e := range ents {
+			m[e.Name()] = true
+		}
+		return m
+	}
+	before := rbUnits()
+	WaitFor(10*time.Second, func() bool {
+		l, err := OneShot(ra.Sock, map[string]interface{}{"command": "ping", "target": "rb"}, 3*time.Second)
+		return err == nil && strings.Contains(l, "Success")
+	})
+	watch := 9 * time.Second
+	if c.Thorough() {
+		watch = 25 * time.Second
+	}
+	deadline := time.Now().Add(watch)
+	reported := map[string]bool{}
+	for time.Now().Before(deadline) {
+		for _, nv := range nevs {
+			if reported[nv.unit] {
+				continue
+			}
+			if ps := procsWithMarker(nv.marker); len(ps) > 0 {
+				reported[nv.unit] = true
+				im.Violate(fmt.Sprintf("remote unit %s was %sed on ra before its work was started; after rb came back its command runs there (pid %v)", nv.unit, nv.sub, ps), "c13-cancelled-unit-runs", nv.ctx)
+			}
+		}
+		for id := range rbUnits() {
+			if !before[id] && !reported["rb:"+id] {
+				reported["rb:"+id] = true
+				im.Violate(fmt.Sprintf("after rb came back a unit (%s) was created there although every unit submitted for it had been cancelled or released on ra", id), "c13-cancelled-unit-runs", map[string]interface{}{"units": nevs[0].ctx})
+			}
+		}
+		time.Sleep(150 * time.Millisecond)
+	}
+	for _, nv := range nevs {
+		if nv.sub != "cancel" {
+			continue
+		}
+		lines := unitLog(ra, nv.unit)
+		st, _, _ := diskStatus(ra, nv.unit)
+		b, _ := os.ReadFile(filepath.Join(ra.UnitDir(nv.unit), "status"))
+		var sf struct{ ExtraData struct{ RemoteStarted bool } }
+		_ = json.Unmarshal(b, &sf)
+		if st != 3 || sf.ExtraData.RemoteStarted {
+			im.Violate(fmt.Sprintf("remote unit %s cancelled before it started: after rb came back its record says state %d, RemoteStarted=%v", nv.unit, st, sf.ExtraData.RemoteStarted), "c13-cancelled-unit-runs", nv.ctx)
+		}
+		judgeLog(im, nv.unit, lines, false, true, nv.ctx)
+		l, rerr := OneShot(ra.Sock, map[string]interface{}{"command": "work", "subcommand": "release", "unitid": nv.unit}, 30*time.Second)
+		_, serr := os.Stat(ra.UnitDir(nv.unit))
+		if rerr != nil || !strings.Contains(l, "released") || serr == nil {
+			im.Violate(fmt.Sprintf("remote unit %s (cancelled, never started): release answered %q %v; directory exists: %v", nv.unit, l, rerr, serr == nil), "c13-known-after-release", nv.ctx)
+		}
+		im.Hist("remote:never-started-watched-after-node-came-back")
 	}
 }
 
